@@ -2,6 +2,7 @@ package wgen
 
 import (
 	"fmt"
+	"math"
 	"math/bits"
 	"strings"
 )
@@ -31,6 +32,7 @@ type SGroup struct {
 	TypeName string
 	Shape    string
 	Bare     bool
+	Style    string // suffixed, abstract, or intlit (f32/u32 vector components written as abstract integer literals)
 	Flat     bool // the canonical flat constructor of its type (reference point for attribution)
 	Ty       *Type
 	cons     Expr
@@ -149,13 +151,33 @@ type sArg struct {
 }
 
 type sCtx struct {
-	k    SK
-	bare bool
-	val  int
-	np   *int // counter for named parts
+	k      SK
+	bare   bool
+	intlit bool // components of kind c.k are written as abstract INTEGER literals (f32 and u32 vectors)
+	val    int
+	np     *int // counter for named parts
+}
+
+var sValF32Int = fbits(3, -7, 100, 16777216, -1, 2, 5, 9, -8, 11, 12, -13, 14, 15, 16, 17)
+
+// value of flat component p of kind k
+func (c *sCtx) value(k SK, p int) uint32 {
+	if c.intlit && k == F32 && k == c.k {
+		return sValF32Int[p%16]
+	}
+	return sVal(k, p, c.bare, c.val)
 }
 
 func (c *sCtx) lit(k SK, bits uint32) Expr {
+	if c.intlit && k == c.k {
+		switch k {
+		case F32:
+			// an abstract integer literal in a position that requires f32 (value-preserving conversion)
+			return &Lit{Ty: TI32, Bits: uint32(int32(math.Float32frombits(bits))), Bare: true}
+		case U32:
+			return &Lit{Ty: TU32, Bits: bits, Bare: true}
+		}
+	}
 	return litOf(Scalar(k), []uint32{bits}, c.bare)
 }
 
@@ -165,7 +187,7 @@ func (c *sCtx) lits(k SK, p, n int, src []uint32) []Expr {
 		if src != nil {
 			out[i] = c.lit(k, src[(p+i)%16])
 		} else {
-			out[i] = c.lit(k, sVal(k, p+i, c.bare, c.val))
+			out[i] = c.lit(k, c.value(k, p+i))
 		}
 	}
 	return out
@@ -180,7 +202,9 @@ func (c *sCtx) vecForms(p, n, depth int) []sArg {
 	out = append(out, sArg{name: fmt.Sprintf("v%d", n), e: flat})
 	out = append(out, sArg{name: fmt.Sprintf("v%ds", n), e: &Cons{Ty: t, Args: c.lits(c.k, p, 1, nil)}})
 	out = append(out, sArg{name: fmt.Sprintf("v%dz", n), e: &Cons{Ty: t}})
-	out = append(out, sArg{name: fmt.Sprintf("v%di", n), e: &Cons{Ty: t, Args: c.lits(c.k, p, n, nil), Infer: true}})
+	if !c.intlit { // (an inferred constructor over integer literals would be an integer vector)
+		out = append(out, sArg{name: fmt.Sprintf("v%di", n), e: &Cons{Ty: t, Args: c.lits(c.k, p, n, nil), Infer: true}})
+	}
 	sk, src := sSrc(c.k, c.bare)
 	out = append(out, sArg{name: fmt.Sprintf("v%dc", n), e: &Cons{Ty: t, Args: []Expr{&Cons{Ty: Vec(sk, n), Args: c.lits(sk, p, n, src)}}}})
 	nm := fmt.Sprintf("p%d", *c.np)
@@ -197,7 +221,7 @@ func (c *sCtx) vecForms(p, n, depth int) []sArg {
 			q := p
 			for _, sz := range comp {
 				if sz == 1 {
-					args = append(args, c.lit(c.k, sVal(c.k, q, c.bare, c.val)))
+					args = append(args, c.lit(c.k, c.value(c.k, q)))
 					names = append(names, "s")
 				} else {
 					args = append(args, &Cons{Ty: Vec(c.k, sz), Args: c.lits(c.k, q, sz, nil)})
@@ -254,7 +278,7 @@ func (c *sCtx) vecShapes(p, n int) []sShape {
 		q := p
 		for i, sz := range comp {
 			if sz == 1 {
-				alts[i] = []sArg{{name: "s", e: c.lit(c.k, sVal(c.k, q, c.bare, c.val))}}
+				alts[i] = []sArg{{name: "s", e: c.lit(c.k, c.value(c.k, q))}}
 			} else {
 				alts[i] = c.vecForms(q, sz, 0)
 			}
@@ -280,7 +304,7 @@ func (c *sCtx) vecShapes(p, n int) []sShape {
 					allPlain = false
 				}
 			}
-			if allPlain {
+			if allPlain && !c.intlit {
 				out = append(out, sShape{name: "infer:" + nm, e: &Cons{Ty: t, Args: args, Infer: true}, parts: parts})
 			}
 			// next combination
@@ -447,12 +471,26 @@ func F6c3Groups(full bool) []*SGroup {
 	var out []*SGroup
 	add := func(g *SGroup) {
 		g.Index = len(out)
-		g.Sig = fmt.Sprintf("F6c3/%s/%s/%s", g.TypeName, g.Shape, styleName(g.Bare))
+		if g.Style == "" {
+			g.Style = styleName(g.Bare)
+		}
+		g.Sig = fmt.Sprintf("F6c3/%s/%s/%s", g.TypeName, g.Shape, g.Style)
 		out = append(out, g)
 	}
 	// ---- vectors
 	for _, k := range []SK{I32, U32, F32, Bool} {
-		for _, bare := range bareKinds(k) {
+		type vstyle struct {
+			bare, intlit bool
+			name         string
+		}
+		styles := []vstyle{{false, false, "suffixed"}}
+		if k == I32 || k == F32 {
+			styles = append(styles, vstyle{true, false, "abstract"})
+		}
+		if k == U32 || k == F32 {
+			styles = append(styles, vstyle{false, true, "intlit"})
+		}
+		for _, st := range styles {
 			nval := 1
 			if k == Bool {
 				nval = 2
@@ -460,14 +498,14 @@ func F6c3Groups(full bool) []*SGroup {
 			for val := 0; val < nval; val++ {
 				for n := 2; n <= 4; n++ {
 					np := 0
-					c := &sCtx{k: k, bare: bare, val: val, np: &np}
+					c := &sCtx{k: k, bare: st.bare, intlit: st.intlit, val: val, np: &np}
 					accs := vecAccesses(n, full)
 					tn := Vec(k, n).String()
 					if k == Bool {
 						tn += fmt.Sprintf("#%d", val)
 					}
 					for _, sh := range c.vecShapes(0, n) {
-						add(&SGroup{TypeName: tn, Shape: sh.name, Bare: bare, Flat: sh.flat, Ty: Vec(k, n), cons: sh.e, parts: sh.parts, accs: accs})
+						add(&SGroup{TypeName: tn, Shape: sh.name, Bare: st.bare, Style: st.name, Flat: sh.flat, Ty: Vec(k, n), cons: sh.e, parts: sh.parts, accs: accs})
 					}
 				}
 			}
